@@ -38,6 +38,21 @@ def generate(rng, tier):
     for d in U.gen_wide_types():
         out.append({"fn": "list", "kind": "widetype", "circuit": d})
         out.append({"fn": "super", "kind": "widetype", "circuit": d})
+    # constants incl. `x` inside the cones (with fan-out), both forms
+    out.append({"fn": "list", "kind": "xconst", "circuit": U.xconst_demo()})
+    out.append({"fn": "super", "kind": "xconst", "circuit": U.xconst_demo()})
+    for i in range(n // 8):
+        d = U.gen_xconst(rng)
+        out.append({"fn": "list", "kind": "xconst", "circuit": d})
+        if len(lib.inputs_of(d)) <= 6:
+            out.append({"fn": "super", "kind": "xconst", "circuit": U.single_output(rng, lib.json.loads(lib.json.dumps(d)))})
+    # two-step histories: the input is itself limit_fanin(c0, k), k = 3, 4 (done in impl), or carries names of that shape
+    for i in range(n // 14):
+        d = U.gen_case_circuit(rng, "wide")
+        out.append({"fn": "list", "kind": "relimit", "circuit": d, "prelimit": 3 + i % 2})
+        if len(lib.inputs_of(d)) <= 6 and i % 2 == 0:
+            out.append({"fn": "super", "kind": "relimit", "circuit": U.single_output(rng, lib.json.loads(lib.json.dumps(d))), "prelimit": 3 + (i // 2) % 2})
+        out.append({"fn": "list", "kind": "limitname", "circuit": U.gen_limitname(rng)})
     for i in range(n // 3):
         kind = KINDS[i % len(KINDS)]
         for _ in range(20):
@@ -60,12 +75,19 @@ def impl(case):
     import circuitgraph as cg
     d = case["circuit"]
     c = lib.build_circuit(d)
-    # the fan-in-limited circuit supergates works on is internal; limit_fanin is deterministic for a fixed hash seed
-    # (same sets built by the same calls), so the same call made here yields the same circuit
-    L = lib.dump_circuit(cg.tx.limit_fanin(c, 2))
-    same = lib.canon(L) == lib.canon(lib.dump_circuit(c))
-    obs = {"L": None if same else L}
+    obs = {}
+    if case.get("prelimit"):
+        # the circuit under test is the result of an earlier limit_fanin(c0, k): names <g>_limit_fanin_<i> are already taken
+        c = cg.tx.limit_fanin(c, case["prelimit"])
+        cg.lint(c)
+        d = lib.dump_circuit(c)
+        obs["C"] = d
+    obs["L"] = None
     try:
+        # the fan-in-limited circuit supergates works on is internal; limit_fanin is deterministic for a fixed hash seed
+        # (same sets built by the same calls), so the same call made here yields the same circuit
+        L = lib.dump_circuit(cg.tx.limit_fanin(c, 2))
+        obs["L"] = None if lib.canon(L) == lib.canon(lib.dump_circuit(c)) else L
         if case["fn"] == "list":
             r = cg.tx.supergates(c)
             obs["res"] = [lib.dump_circuit(s) for s in r]
@@ -73,9 +95,13 @@ def impl(case):
             sc, m = cg.tx.supergates(c, construct_supercircuit=True)
             obs["super"] = lib.dump_circuit(sc)
             obs["map"] = [[k, lib.dump_circuit(v)] for k, v in m.items()]
-    except Exception as e:  # library exceptions are observations
+    except Exception as e:  # library exceptions are observations; on these inputs every one is a property failure
         obs.update(_exc(e))
     return obs
+
+
+def _circ(case, obs):
+    return obs.get("C") or case["circuit"]
 
 
 def cexc(name):
@@ -85,8 +111,8 @@ def cexc(name):
 
 
 def to_coq(case, obs):
-    C = ccirc(case["circuit"])
-    L = "None" if obs["L"] is None else f"(Some {ccirc(obs['L'])})"
+    C = ccirc(_circ(case, obs))
+    L = "None" if obs.get("L") is None else f"(Some {ccirc(obs['L'])})"
     if case["fn"] == "list":
         r = cexc(obs["exc"]) if "exc" in obs else "(Ok %s)" % cl(ccirc(s) for s in obs["res"])
         return f"CList {C} {L} {r}"
@@ -98,11 +124,11 @@ def to_coq(case, obs):
 
 
 def _limited(case, obs):
-    return U.graph(obs["L"] if obs.get("L") else case["circuit"])
+    return U.graph(obs["L"] if obs.get("L") else _circ(case, obs))
 
 
 def nontrivial(case, obs):
-    d = case["circuit"]
+    d = _circ(case, obs)
     ngates = sum(1 for n in d["nodes"] if n[1] not in ("input", "0", "1", "x"))
     if ngates < 2:
         return False
@@ -114,7 +140,7 @@ def nontrivial(case, obs):
 
 
 def classify(case, obs):
-    d = case["circuit"]
+    d = _circ(case, obs)
     out = [f"{case['fn']}:{case['kind']}"]
     if "exc" in obs:
         out.append(f"{case['fn']}:exc:{obs['exc']}")
